@@ -309,20 +309,15 @@ class Repo:
                 except SyntaxError as e:
                     raise AnalysisError(f"{rel}: does not parse: {e}")
         collapse_forwarders({k: v[3] for k, v in parsed.items()})
-        from .inline import inline_new_helpers, tag_sources, reposition
+        from .inline import inline_new_helpers, tag_sources, reposition, unroll_object_loops, loops_to_comprehensions
         trees = {k: v[3] for k, v in parsed.items()}
-        if inline_new_helpers(trees, dry=True):
-            tag_sources({k: (v[1], v[3]) for k, v in parsed.items()})
+        tag_sources({k: (v[1], v[3]) for k, v in parsed.items()})
         self.inlined = inline_new_helpers(trees)  # extracted helpers go back into their callers
-        touched = {c.split(":")[0] for _, c, _ in self.inlined}
-        from .inline import unroll_object_loops
-        probe = any(isinstance(n, ast.For) and isinstance(n.iter, (ast.Tuple, ast.List)) and n.iter.elts and not isinstance(n.iter.elts[0], ast.Constant)
-                    for t_ in trees.values() for n in ast.walk(t_))
-        if probe:
-            if not self.inlined and not inline_new_helpers(trees, dry=True):
-                tag_sources({k: (v[1], v[3]) for k, v in parsed.items()})
-            self.unrolled = unroll_object_loops(trees)
-            touched |= {c.split(":")[0] for c, _ in self.unrolled}
+        self.unrolled = unroll_object_loops(trees)  # loops over a literal tuple of objects: one copy of the body per object
+        self.comprehended = loops_to_comprehensions(trees)  # list-building loops: the comprehension
+        from .inline import continue_guards_to_conditionals
+        self.unguarded = continue_guards_to_conditionals(trees)  # `if c: continue` + rest: the conditional block
+        touched = {c.split(":")[0] for _, c, _ in self.inlined} | {c.split(":")[0] for c, _ in self.unrolled + self.comprehended + self.unguarded}
         for modname, (path, rel, src, tree) in parsed.items():
             if modname in touched:
                 # positions are used to order constructs: give the normalised module consistent ones (the original file and line of
